@@ -335,7 +335,7 @@ static void instances(size_t max, size_t len, std::vector<Inst> &v)
 	for (size_t take = 0; take <= top; ++take) for (size_t done = 0; done <= top; ++done) v.push_back(Inst{XTRIM, take, done});
 }
 
-static size_t maxtop(Tier t) { return t == Quick ? 9 : 28; }
+static size_t maxtop(Tier t) { return t == Quick ? 14 : 28; }
 void mc_jobs(Tier t, std::vector<std::string> &jobs)
 {
 	for (size_t m = 0; m <= maxtop(t); ++m) jobs.push_back("max=" + std::to_string(m));
